@@ -610,6 +610,35 @@ impl Dy {
         Some((hi, lo))
     }
 
+    /// trunc(self / d) as an exact integer (restoring binary long division); the quotient
+    /// must be below 2^maxbits in magnitude (asserted).  Also returns the remainder
+    /// self - q*d (same sign as self, |rem| < |d|).
+    pub fn div_trunc(&self, d: &Dy, maxbits: i32) -> (Dy, Dy) {
+        assert!(!d.is_zero(), "division by zero");
+        if self.is_zero() {
+            return (Dy::zero(), Dy::zero());
+        }
+        let db = d.abs();
+        let mut r = self.abs();
+        let top = self.msb().unwrap() - d.msb().unwrap() + 1;
+        assert!(top <= maxbits + 1, "div_trunc: quotient too large ({} bits)", top);
+        let mut q = Dy::zero();
+        let mut i = top;
+        while i >= 0 {
+            let t = db.mul_pow2(i);
+            if t.cmp_abs(&r) != Ordering::Greater {
+                r = r.sub(&t);
+                q = q.add(&Dy::pow2(i));
+                if r.is_zero() {
+                    break;
+                }
+            }
+            i -= 1;
+        }
+        let neg = self.is_neg() != d.is_neg();
+        (if neg { q.neg() } else { q }, if self.is_neg() { r.neg() } else { r })
+    }
+
     /// |self| ~= m * 2^e with m in [2^63, 2^64) (top 64 bits, truncated); None for zero
     pub fn top_bits(&self) -> Option<(u64, i32)> {
         let p = self.msb()?;
